@@ -123,8 +123,9 @@ def _cells():
     B("adjoint:complex", "utils.quaternion_to_complex_adjoint", [CPLX], argclass="complex dtype")
     for ax in ("y", "z", "X", "", None, 0):
         B(f"adjoint:axis_{ax!r}", "utils.quaternion_to_complex_adjoint", [SQ], {"axis": ax}, argclass="unknown option")
-    B("power_iteration_nonhermitian:axis_y", "utils.power_iteration_nonhermitian", [SQ],
-      {"subfield_axis": "y", "max_iterations": 5}, argclass="unknown option")
+    for ax in ("y", "z", "X", "", None, 0, "w", "xy", "i"):
+        B(f"power_iteration_nonhermitian:axis_{ax!r}", "utils.power_iteration_nonhermitian", [SQ],
+          {"subfield_axis": ax, "max_iterations": 5}, argclass="unknown option")
     for fn in ("quat_null_space", "quat_kernel"):
         for sd in ("up", "Right", "RIGHT", "", "r", "l", " left", None, 0, "both"):
             B(f"{fn}:side_{sd!r}", f"utils.{fn}", [SQ], {"side": sd}, argclass="unknown option")
